@@ -56,6 +56,7 @@ const limit = byte('\n')
 
 func Read(rd io.Reader) (out []byte, deltams int32, err error) {
 	var deltaRead bool
+	var malformed bool
 	var deltaBf []byte
 
 	for {
@@ -65,6 +66,13 @@ func Read(rd io.Reader) (out []byte, deltams int32, err error) {
 		}
 
 		if b == ' ' {
+			if deltaRead {
+				// a second separator: the line is not a single record
+				// (e.g. the terminator of the previous line got lost).
+				// the rest of the line is skipped, so that the next call starts with the next line
+				malformed = true
+				continue
+			}
 			deltams, err = convertDelta(deltaBf)
 			if err != nil {
 				return
@@ -74,6 +82,9 @@ func Read(rd io.Reader) (out []byte, deltams int32, err error) {
 		}
 
 		if b == limit {
+			if malformed {
+				return nil, -1, fmt.Errorf("malformed line: more than one separator")
+			}
 			return out, deltams, err
 		}
 
